@@ -375,6 +375,16 @@ class Runner:
         diff, nrun = sem_diff(p0, p_impl, stores, ex)
         self.st("interp_pairs", nrun)
         replay["transformed"] = "\n".join(mf.stmts_to_fortran(p_impl))
+        if diff and trans in ("fuse", "swap", "chunk", "tile"):
+            # The post-loop value of the DO variables of the transformed loops is excluded from the observation.
+            # If the rest of the program reads it, compare again with those variables reset right after the
+            # target in both programs: only a difference that survives is a failure of the property.
+            d2 = self.diff_modulo_do_variables(p0, p_impl, trans, target, stores, ex)
+            if d2 is None:
+                ctx.hist("excluded_do_variable_read_after_loop", trans)
+                diff = None
+            else:
+                diff = d2
         if diff:
             replay.update(diff)
             replay["store"] = {"%s%s" % (k[0], list(k[1]) if k[1] else ""): v for k, v in sorted(diff["store"].items())
@@ -400,6 +410,26 @@ class Runner:
             code = classify(trans, p0, target, opt, p_impl, stores, ex)
             ctx.hist("semantic_difference", trans + "/" + code)
             self.report(trans, code, replay)
+
+    @staticmethod
+    def diff_modulo_do_variables(p0, p1, trans, target, stores, ex):
+        path = min(target) if trans == "fuse" else target
+        nseg = 2 if trans == "fuse" else 1
+        dovars = sorted(x for x in ex if x in DECLARED)
+        reset = [("assign", x, [], ("lit", 0)) for x in dovars]
+        sizes = {}
+
+        def ins0(blk, n):
+            sizes["old"] = len(blk)
+            return blk[:n + nseg] + reset + blk[n + nseg:]
+        q0 = M.map_block(p0, path, ins0)
+
+        def ins1(blk, n):
+            k = nseg + (len(blk) - sizes["old"])
+            return blk[:n + k] + reset + blk[n + k:]
+        q1 = M.map_block(p1, path, ins1)
+        d, _ = sem_diff(q0, q1, stores, ex)
+        return d
 
     @staticmethod
     def aux_default(trans, p0, target):
@@ -502,7 +532,7 @@ def run(ctx):
     ctx.log("known-finding witnesses reproduced: %d of %d" % (nk, len(ctx.known_findings())))
     rng = ctx.rng("gen")
     g = GEN.G(rng)
-    nprog = ctx.pick(130, 1500)
+    nprog = ctx.pick(130, 1200)
     nstores = ctx.pick(8, 12)
     seen = set()
     for n in range(nprog):
@@ -530,7 +560,7 @@ def run(ctx):
     # the Coq model is evaluated on the known-finding witnesses and on a deterministic subset of the programs
     # (every case is always compared implementation <-> mirror; coqc parsing of the case files dominates the cost)
     allg = list(rn.coq_groups.values())
-    step, cap = ctx.pick(4, 1), ctx.pick(32, 400)
+    step, cap = ctx.pick(4, 1), ctx.pick(32, 300)
     nk_groups = len(ctx.known_findings())
     groups = allg[:nk_groups] + allg[nk_groups::step][:cap]
     terms = []
